@@ -682,6 +682,111 @@ theorem penNext_dom (isSet : Bool) (cur pen : PenMap) (hc : PenDom cur) (hp : pe
     · simp only [Option.some.injEq] at h; subst h; exact hget a
 
 
+/-! ### libtermkey is running whenever the terminal is, and nothing waits in its buffer -/
+
+/-- Inside the contract replies are only pushed while the terminal runs; then libtermkey (if it exists)
+    is started and its buffer holds no earlier reply. -/
+structure TkInv (s : Sys) (ph : Phase) : Prop where
+  tk : ph = .running → s.term.tk ≠ some false
+  pend : s.term.pending = []
+
+theorem Term.reply_running (cfg : Cfg) (t : Term) (r : Reply) (h1 : t.tk ≠ some false) (h2 : t.pending = []) :
+    Term.reply cfg t r = { t with drv := applyReply cfg t.drv r, tk := some true, pending := [] } := by
+  unfold Term.reply
+  have : t.tk.getD true = true := by
+    cases h : t.tk with
+    | none => rfl
+    | some b => cases b; exact absurd h h1; rfl
+  rw [if_pos this, h2]; rfl
+
+theorem Term.await_fields (t : Term) (msec : Int) :
+    (Term.await t msec).drv = t.drv ∧ (Term.await t msec).pen = t.pen ∧ (Term.await t msec).pending = t.pending ∧
+    (Term.await t msec).state = .started ∧ (t.tk ≠ some false → (Term.await t msec).tk ≠ some false) := by
+  unfold Term.await
+  split
+  · rename_i h; exact ⟨rfl, rfl, rfl, h, id⟩
+  · refine ⟨rfl, rfl, rfl, rfl, ?_⟩
+    intro h
+    simp only
+    split
+    · cases ht : t.tk with
+      | none => simp
+      | some b => cases b; exact absurd ht h; simp
+    · exact h
+
+theorem setupterm_tk (cfg : Cfg) (top : Top) (t : Term) :
+    (setupterm cfg top t).2.1.pending = t.pending ∧ (t.tk ≠ some false → (setupterm cfg top t).2.1.tk ≠ some false) := by
+  obtain ⟨_, _, h3, _, h5⟩ := Term.await_fields t ModeLayout.setup_await_msec
+  unfold setupterm
+  simp only [Term.setctl]
+  split <;> exact ⟨h3, h5⟩
+
+theorem tk_step (cfg : Cfg) (s : Sys) (ph ph' : Phase) (op : Op) (h : TkInv s ph)
+    (hph : phaseNext ph op = some ph') : TkInv (s.step cfg op).sys ph' := by
+  obtain ⟨h1, h2⟩ := h
+  cases op
+  case pause =>
+    cases ph <;> simp [phaseNext] at hph
+    subst hph
+    exact ⟨(fun hc => by cases hc), h2⟩
+  case resume =>
+    cases ph <;> simp [phaseNext] at hph
+    subst hph
+    refine ⟨fun _ => ?_, h2⟩
+    simp only [Sys.step, Term.resume]
+    cases s.term.tk <;> simp
+  case teardown =>
+    have hph' : ph' = .stopped := by
+      cases ph <;> simp [phaseNext] at hph <;> exact hph.symm
+    subst hph'
+    refine ⟨(fun hc => by cases hc), ?_⟩
+    simp only [Sys.step, Term.teardown]
+    split <;> exact h2
+  case replyMode m v =>
+    cases ph <;> simp [phaseNext] at hph
+    subst hph
+    simp only [Sys.step]
+    rw [Term.reply_running cfg _ _ (h1 rfl) h2]
+    exact ⟨fun _ => by simp, rfl⟩
+  case replyShape v =>
+    cases ph <;> simp [phaseNext] at hph
+    subst hph
+    simp only [Sys.step]
+    rw [Term.reply_running cfg _ _ (h1 rfl) h2]
+    exact ⟨fun _ => by simp, rfl⟩
+  case replySgr c r =>
+    cases ph <;> simp [phaseNext] at hph
+    subst hph
+    simp only [Sys.step]
+    rw [Term.reply_running cfg _ _ (h1 rfl) h2]
+    exact ⟨fun _ => by simp, rfl⟩
+  case await msec =>
+    cases ph <;> simp [phaseNext] at hph
+    subst hph
+    obtain ⟨_, _, e3, _, e5⟩ := Term.await_fields s.term msec
+    exact ⟨fun _ => e5 (h1 rfl), by simp only [Sys.step]; rw [e3]; exact h2⟩
+  case tick nosetup =>
+    cases ph <;> simp [phaseNext] at hph
+    subst hph
+    simp only [Sys.step]
+    cases htop : s.top with
+    | none => exact ⟨h1, h2⟩
+    | some top =>
+      simp only
+      split
+      · obtain ⟨e1, e2⟩ := setupterm_tk cfg top s.term
+        exact ⟨fun _ => e2 (h1 rfl), by simp only; rw [e1]; exact h2⟩
+      · exact ⟨h1, h2⟩
+  case usealt v =>
+    cases ph <;> simp [phaseNext] at hph
+    subst hph
+    simp only [Sys.step]
+    cases htop : s.top <;> exact ⟨h1, h2⟩
+  all_goals
+    cases ph <;> simp [phaseNext] at hph
+    subst hph
+    exact ⟨h1, h2⟩
+
 theorem Ghost.set_doneSetup (g : Ghost) (c : Option Ctl) (v : Int) : (g.set c v).doneSetup = g.doneSetup := by
   cases c with
   | none => rfl
@@ -793,26 +898,29 @@ theorem setupterm_inv (cfg : Cfg) (hrec : cfg.keypadRecorded = true) (top : Top)
         { g with doneSetup := true, alt := if (top.useAlt : Int) ≠ 0 then 1 else g.alt, vis := 0, mouse := 2, keypad := 1 } ∧
       (setupterm cfg top t).2.1.state = .started ∧ (setupterm cfg top t).2.1.pen = t.pen ∧
       (setupterm cfg top t).1 = { top with doneSetup := true } := by
+  obtain ⟨e1, e2, _, e4, _⟩ := Term.await_fields t ModeLayout.setup_await_msec
   unfold setupterm
   simp only [Term.setctl]
+  generalize Term.await t ModeLayout.setup_await_msec = t0 at e1 e2 e4 ⊢
+  rw [← e1] at hsh hml hgh
   -- first control: the alternate screen, if wanted
   by_cases hua : top.useAlt ≠ 0
   · simp only [if_pos hua]
-    obtain ⟨m1, f1, s1, l1, g1⟩ := setctl_all cfg hrec t.drv g .altscreen 1 m A (by simp) (by simp) hsh hml hgh
+    obtain ⟨m1, f1, s1, l1, g1⟩ := setctl_all cfg hrec t0.drv g .altscreen 1 m A (by simp) (by simp) hsh hml hgh
     obtain ⟨m2, f2, s2, l2, g2⟩ := setctl_all cfg hrec _ _ .cursorvis 0 m1 A (by simp) (by simp) s1 l1 g1
     obtain ⟨m3, f3, s3, l3, g3⟩ := setctl_all cfg hrec _ _ .mouse 2 m2 A (by simp) (by simp) s2 l2 g2
     obtain ⟨m4, f4, s4, l4, g4⟩ := setctl_all cfg hrec _ _ .keypadApp 1 m3 A (by simp) (by simp) s3 l3 g3
-    refine ⟨m4, ?_, s4, l4, ?_, ?_, ?_, ?_⟩ <;> try (first | rfl | trivial)
+    refine ⟨m4, ?_, s4, l4, ?_, e4, e2, ?_⟩ <;> try (first | rfl | trivial)
     · rw [feed_append, feed_append, feed_append, feed_append, f1, f2, f3, f4, feed_clearScreen]
     · have hua' : (top.useAlt : Int) ≠ 0 := by omega
       obtain ⟨a1, a2, a3, a4, a5, a6, a7, a8⟩ := g4
       exact ⟨by simpa [Ghost.set, bool01, hua', hua] using a1, by simpa [Ghost.set, bool01] using a2, by simpa [Ghost.set] using a3,
         by simpa [Ghost.set, bool01] using a4, by simpa [Ghost.set] using a5, by simpa [Ghost.set] using a6, a7, a8⟩
   · simp only [if_neg hua]
-    obtain ⟨m2, f2, s2, l2, g2⟩ := setctl_all cfg hrec t.drv g .cursorvis 0 m A (by simp) (by simp) hsh hml hgh
+    obtain ⟨m2, f2, s2, l2, g2⟩ := setctl_all cfg hrec t0.drv g .cursorvis 0 m A (by simp) (by simp) hsh hml hgh
     obtain ⟨m3, f3, s3, l3, g3⟩ := setctl_all cfg hrec _ _ .mouse 2 m2 A (by simp) (by simp) s2 l2 g2
     obtain ⟨m4, f4, s4, l4, g4⟩ := setctl_all cfg hrec _ _ .keypadApp 1 m3 A (by simp) (by simp) s3 l3 g3
-    refine ⟨m4, ?_, s4, l4, ?_, ?_, ?_, ?_⟩ <;> try (first | rfl | trivial)
+    refine ⟨m4, ?_, s4, l4, ?_, e4, e2, ?_⟩ <;> try (first | rfl | trivial)
     · rw [feed_append, feed_append, feed_append, feed_append, feed_nil, f2, f3, f4, feed_clearScreen]
     · have hua' : ¬ (top.useAlt : Int) ≠ 0 := by omega
       obtain ⟨a1, a2, a3, a4, a5, a6, a7, a8⟩ := g4
@@ -820,7 +928,7 @@ theorem setupterm_inv (cfg : Cfg) (hrec : cfg.keypadRecorded = true) (top : Top)
         by simpa [Ghost.set, bool01] using a4, by simpa [Ghost.set] using a5, by simpa [Ghost.set] using a6, a7, a8⟩
 
 theorem step_inv (cfg : Cfg) (s : Sys) (vt : VT) (ph ph' : Phase) (g : Ghost) (op : Op)
-    (h : MInv cfg s vt ph g) (hok : opOk op = true) (hph : phaseNext ph op = some ph')
+    (h : MInv cfg s vt ph g) (htk : TkInv s ph) (hok : opOk op = true) (hph : phaseNext ph op = some ph')
     (hnt : trigger cfg s g op = false) :
     MInv cfg (s.step cfg op).sys (VT.feed vt (s.step cfg op).out) ph' (g.step op (s.step cfg op).ret s.ua) := by
   obtain ⟨ps, m, A⟩ := vt
@@ -888,11 +996,13 @@ theorem step_inv (cfg : Cfg) (s : Sys) (vt : VT) (ph ph' : Phase) (g : Ghost) (o
     cases ph <;> simp [phaseNext] at hph
     subst hph
     exact ⟨rfl, hml, hkz, hst, hsh, hoff, hgh, hsu, hpd⟩
-  | await =>
+  | await msec =>
     cases ph <;> simp [phaseNext] at hph
     subst hph
-    refine ⟨rfl, hml, hkz, ?_, hsh, hoff, hgh, hsu, hpd⟩
-    simp [Sys.step]
+    obtain ⟨e1, e2, _, e4, _⟩ := Term.await_fields s.term msec
+    simp only [Sys.step, feed_nil]
+    refine ⟨rfl, by rw [e1]; exact hml, by rw [e1]; exact hkz, by simp [e4], fun _ => by rw [e1]; exact hsh rfl,
+      fun hne => absurd rfl hne, by rw [e1]; exact hgh, hsu, by rw [e2]; exact hpd⟩
   | replyMode mode value =>
     cases ph <;> simp [phaseNext] at hph
     subst hph
@@ -901,10 +1011,12 @@ theorem step_inv (cfg : Cfg) (s : Sys) (vt : VT) (ph ph' : Phase) (g : Ghost) (o
       simpa [trigger] using hnt
     obtain ⟨hg', e1, e2, e3, e4⟩ := onModereport_ok cfg s.term.drv g mode value hgh hnt'
     have hs := hsh rfl
+    simp only [Sys.step, feed_nil]
+    rw [Term.reply_running cfg _ _ (htk.tk rfl) htk.pend]
     refine ⟨rfl, ?_, ?_, ?_, fun _ => ⟨?_, ?_, ?_, ?_, ?_⟩, fun hne => absurd rfl hne, hg', hsu, hpd⟩
     · show (onModereport cfg s.term.drv mode value).mode.mouse ≤ 3; rw [e3]; exact hml
     · intro hk; show (onModereport cfg s.term.drv mode value).mode.keypad = 0; rw [e4]; exact hkz hk
-    · simpa [Sys.step] using hst
+    · simpa using hst
     · show m.altscreen = decide ((onModereport cfg s.term.drv mode value).mode.altscreen ≠ 0); rw [e1]; exact hs.alt
     · show m.cursorVisible = decide ((onModereport cfg s.term.drv mode value).mode.cursorvis ≠ 0); rw [e2]; exact hs.vis
     · show (m.mouse : Int) = modeForMouse (onModereport cfg s.term.drv mode value).mode.mouse; rw [e3]; exact hs.mouse
@@ -914,8 +1026,10 @@ theorem step_inv (cfg : Cfg) (s : Sys) (vt : VT) (ph ph' : Phase) (g : Ghost) (o
     cases ph <;> simp [phaseNext] at hph
     subst hph
     have hs := hsh rfl
+    simp only [Sys.step, feed_nil]
+    rw [Term.reply_running cfg _ _ (htk.tk rfl) htk.pend]
     refine ⟨rfl, hml, hkz, ?_, fun _ => ⟨hs.alt, hs.vis, hs.mouse, hs.sgr, hs.keypad⟩, fun hne => absurd rfl hne, ?_, hsu, hpd⟩
-    · simpa [Sys.step] using hst
+    · simpa using hst
     · refine ⟨hgh.alt, hgh.vis, hgh.mouse, hgh.keypad, hgh.blink, ?_, hgh.visInit, hgh.le1⟩
       intro x hx
       have hx : g.shape = some x := hx
@@ -923,15 +1037,17 @@ theorem step_inv (cfg : Cfg) (s : Sys) (vt : VT) (ph ph' : Phase) (g : Ghost) (o
       cases hgd : cfg.repliesGuarded
       · simp [trigger, hgd, hx] at hnt
       · have hi := hx2 hgd
-        refine ⟨?_, fun _ => by simp [Sys.step, onDecrqssShape, ModeLayout.w_initialised_cursorshape, wrapU_w2]⟩
-        simp only [Sys.step, onDecrqssShape, hgd, true_and]
+        refine ⟨?_, fun _ => by simp [applyReply, onDecrqssShape, ModeLayout.w_initialised_cursorshape, wrapU_w2]⟩
+        simp only [applyReply, onDecrqssShape, hgd, true_and]
         rw [if_pos hi]; exact hx1
   | replySgr colon rgb =>
     cases ph <;> simp [phaseNext] at hph
     subst hph
     have hs := hsh rfl
+    simp only [Sys.step, feed_nil]
+    rw [Term.reply_running cfg _ _ (htk.tk rfl) htk.pend]
     refine ⟨rfl, hml, hkz, ?_, fun _ => ⟨hs.alt, hs.vis, hs.mouse, hs.sgr, hs.keypad⟩, fun hne => absurd rfl hne, ?_, hsu, hpd⟩
-    · simpa [Sys.step] using hst
+    · simpa using hst
     · exact ⟨hgh.alt, hgh.vis, hgh.mouse, hgh.keypad, hgh.blink, hgh.shape, hgh.visInit, hgh.le1⟩
   | pause =>
     cases ph <;> simp [phaseNext] at hph
@@ -1036,13 +1152,13 @@ def noTrigger (cfg : Cfg) : Sys → Ghost → List Op → Bool
     !trigger cfg s g op && noTrigger cfg (s.step cfg op).sys (g.step op (s.step cfg op).ret s.ua) rest
 
 theorem run_inv (cfg : Cfg) : ∀ (ops : List Op) (s : Sys) (vt : VT) (ph ph' : Phase) (g : Ghost),
-    MInv cfg s vt ph g → validFrom ph ops = some ph' → noTrigger cfg s g ops = true →
+    MInv cfg s vt ph g → TkInv s ph → validFrom ph ops = some ph' → noTrigger cfg s g ops = true →
     MInv cfg (Sys.run cfg s ops).1 (VT.feed vt (Sys.run cfg s ops).2) ph' (ghostRun cfg s g ops)
-  | [], s, vt, ph, ph', g, h, hv, _ => by
+  | [], s, vt, ph, ph', g, h, _, hv, _ => by
     simp only [validFrom, Option.some.injEq] at hv
     subst hv
     simpa [Sys.run, ghostRun] using h
-  | op :: rest, s, vt, ph, ph', g, h, hv, hnt => by
+  | op :: rest, s, vt, ph, ph', g, h, htk, hv, hnt => by
     simp only [validFrom] at hv
     split at hv
     · rename_i hok
@@ -1051,8 +1167,8 @@ theorem run_inv (cfg : Cfg) : ∀ (ops : List Op) (s : Sys) (vt : VT) (ph ph' : 
       | some ph1 =>
         simp only [hp, Option.bind_some] at hv
         simp only [noTrigger, Bool.and_eq_true, Bool.not_eq_true'] at hnt
-        have h1 := step_inv cfg s vt ph ph1 g op h hok hp hnt.1
-        have h2 := run_inv cfg rest _ _ ph1 ph' _ h1 hv hnt.2
+        have h1 := step_inv cfg s vt ph ph1 g op h htk hok hp hnt.1
+        have h2 := run_inv cfg rest _ _ ph1 ph' _ h1 (tk_step cfg s ph ph1 op htk hp) hv hnt.2
         simpa [Sys.run, ghostRun, feed_append] using h2
     · cases hv
 
@@ -1433,28 +1549,31 @@ theorem resume_ground (d : XDrv) (m : VModes) (A : Attrs) :
 theorem setupterm_ground (cfg : Cfg) (top : Top) (t : Term) (m : VModes) (A : Attrs) :
     ∃ m', VT.feed ⟨.ground, m, A⟩ (setupterm cfg top t).2.2 = ⟨.ground, m', A⟩ ∧
       (setupterm cfg top t).2.1.pen = t.pen ∧ (setupterm cfg top t).2.1.state = .started := by
+  obtain ⟨_, e2, _, e4, _⟩ := Term.await_fields t ModeLayout.setup_await_msec
   unfold setupterm
   simp only [Term.setctl]
+  generalize Term.await t ModeLayout.setup_await_msec = t0 at e2 e4 ⊢
   rw [feed_append, feed_append, feed_append, feed_append]
   split
-  · obtain ⟨m1, e1⟩ := setctl_ground cfg t.drv (some .altscreen) 1 m A
+  · obtain ⟨m1, e1⟩ := setctl_ground cfg t0.drv (some .altscreen) 1 m A
+    simp only
     rw [e1]
-    obtain ⟨m2, e2⟩ := setctl_ground cfg (setctlInt cfg t.drv (some .altscreen) 1).1 (some .cursorvis) 0 m1 A
-    rw [e2]
-    obtain ⟨m3, e3⟩ := setctl_ground cfg (setctlInt cfg (setctlInt cfg t.drv (some .altscreen) 1).1 (some .cursorvis) 0).1 (some .mouse) 2 m2 A
-    rw [e3]
-    obtain ⟨m4, e4⟩ := setctl_ground cfg (setctlInt cfg (setctlInt cfg (setctlInt cfg t.drv (some .altscreen) 1).1 (some .cursorvis) 0).1 (some .mouse) 2).1 (some .keypadApp) 1 m3 A
-    rw [e4, feed_clearScreen]
-    exact ⟨m4, rfl, rfl, rfl⟩
-  · rw [feed_nil]
-    obtain ⟨m2, e2⟩ := setctl_ground cfg t.drv (some .cursorvis) 0 m A
-    rw [e2]
-    obtain ⟨m3, e3⟩ := setctl_ground cfg (setctlInt cfg t.drv (some .cursorvis) 0).1 (some .mouse) 2 m2 A
-    rw [e3]
-    obtain ⟨m4, e4⟩ := setctl_ground cfg (setctlInt cfg (setctlInt cfg t.drv (some .cursorvis) 0).1 (some .mouse) 2).1 (some .keypadApp) 1 m3 A
-    rw [e4, feed_clearScreen]
-    exact ⟨m4, rfl, rfl, rfl⟩
-
+    obtain ⟨m2, f2⟩ := setctl_ground cfg (setctlInt cfg t0.drv (some .altscreen) 1).1 (some .cursorvis) 0 m1 A
+    rw [f2]
+    obtain ⟨m3, f3⟩ := setctl_ground cfg (setctlInt cfg (setctlInt cfg t0.drv (some .altscreen) 1).1 (some .cursorvis) 0).1 (some .mouse) 2 m2 A
+    rw [f3]
+    obtain ⟨m4, f4⟩ := setctl_ground cfg (setctlInt cfg (setctlInt cfg (setctlInt cfg t0.drv (some .altscreen) 1).1 (some .cursorvis) 0).1 (some .mouse) 2).1 (some .keypadApp) 1 m3 A
+    rw [f4, feed_clearScreen]
+    exact ⟨m4, rfl, e2, e4⟩
+  · simp only
+    rw [feed_nil]
+    obtain ⟨m2, f2⟩ := setctl_ground cfg t0.drv (some .cursorvis) 0 m A
+    rw [f2]
+    obtain ⟨m3, f3⟩ := setctl_ground cfg (setctlInt cfg t0.drv (some .cursorvis) 0).1 (some .mouse) 2 m2 A
+    rw [f3]
+    obtain ⟨m4, f4⟩ := setctl_ground cfg (setctlInt cfg (setctlInt cfg t0.drv (some .cursorvis) 0).1 (some .mouse) 2).1 (some .keypadApp) 1 m3 A
+    rw [f4, feed_clearScreen]
+    exact ⟨m4, rfl, e2, e4⟩
 
 theorem attrParams_ne_nil (a : Attr) (v : Int) (h : inDomain a v = true) : attrParams a v ≠ [] := by
   cases a <;> simp only [inDomain, decide_eq_true_eq] at h <;> simp only [attrParams, colourParams]
@@ -1579,7 +1698,7 @@ theorem Ghost.set_pen (g : Ghost) (c : Option Ctl) (v : Int) : (g.set c v).pen =
   | some c => cases c <;> rfl
 
 theorem pstep_inv (cfg : Cfg) (s : Sys) (vt : VT) (ph ph' : Phase) (g : Ghost) (op : Op)
-    (h : PInv s vt ph g) (hok : opOk op = true) (hph : phaseNext ph op = some ph')
+    (h : PInv s vt ph g) (htk : TkInv s ph) (hok : opOk op = true) (hph : phaseNext ph op = some ph')
     (hnt : penTrigger cfg s op = false) :
     PInv (s.step cfg op).sys (VT.feed vt (s.step cfg op).out) ph' (g.step op (s.step cfg op).ret s.ua) := by
   obtain ⟨ps, m, A⟩ := vt
@@ -1647,22 +1766,30 @@ theorem pstep_inv (cfg : Cfg) (s : Sys) (vt : VT) (ph ph' : Phase) (g : Ghost) (
     cases ph <;> simp [phaseNext] at hph
     subst hph
     exact ⟨rfl, hpen, hdom, hsh, hoff, hst⟩
-  | await =>
+  | await msec =>
     cases ph <;> simp [phaseNext] at hph
     subst hph
-    exact ⟨rfl, hpen, hdom, hsh, hoff, by simp [Sys.step]⟩
+    obtain ⟨_, e2, _, e4, _⟩ := Term.await_fields s.term msec
+    simp only [Sys.step, feed_nil]
+    exact ⟨rfl, by rw [e2]; exact hpen, by rw [e2]; exact hdom, fun _ => by rw [e2]; exact hsh rfl, hoff, by simp [e4]⟩
   | replyMode mode value =>
     cases ph <;> simp [phaseNext] at hph
     subst hph
-    exact ⟨rfl, hpen, hdom, hsh, hoff, by simpa [Sys.step] using hst⟩
+    simp only [Sys.step, feed_nil]
+    rw [Term.reply_running cfg _ _ (htk.tk rfl) htk.pend]
+    exact ⟨rfl, hpen, hdom, hsh, hoff, by simpa using hst⟩
   | replyShape value =>
     cases ph <;> simp [phaseNext] at hph
     subst hph
-    exact ⟨rfl, hpen, hdom, hsh, hoff, by simpa [Sys.step] using hst⟩
+    simp only [Sys.step, feed_nil]
+    rw [Term.reply_running cfg _ _ (htk.tk rfl) htk.pend]
+    exact ⟨rfl, hpen, hdom, hsh, hoff, by simpa using hst⟩
   | replySgr colon rgb =>
     cases ph <;> simp [phaseNext] at hph
     subst hph
-    exact ⟨rfl, hpen, hdom, hsh, hoff, by simpa [Sys.step] using hst⟩
+    simp only [Sys.step, feed_nil]
+    rw [Term.reply_running cfg _ _ (htk.tk rfl) htk.pend]
+    exact ⟨rfl, hpen, hdom, hsh, hoff, by simpa using hst⟩
   | pause =>
     cases ph <;> simp [phaseNext] at hph
     subst hph
@@ -1747,13 +1874,13 @@ def noPenTrigger (cfg : Cfg) : Sys → List Op → Bool
   | s, op :: rest => !penTrigger cfg s op && noPenTrigger cfg (s.step cfg op).sys rest
 
 theorem prun_inv (cfg : Cfg) : ∀ (ops : List Op) (s : Sys) (vt : VT) (ph ph' : Phase) (g : Ghost),
-    PInv s vt ph g → validFrom ph ops = some ph' → noPenTrigger cfg s ops = true →
+    PInv s vt ph g → TkInv s ph → validFrom ph ops = some ph' → noPenTrigger cfg s ops = true →
     PInv (Sys.run cfg s ops).1 (VT.feed vt (Sys.run cfg s ops).2) ph' (ghostRun cfg s g ops)
-  | [], s, vt, ph, ph', g, h, hv, _ => by
+  | [], s, vt, ph, ph', g, h, _, hv, _ => by
     simp only [validFrom, Option.some.injEq] at hv
     subst hv
     simpa [Sys.run, ghostRun] using h
-  | op :: rest, s, vt, ph, ph', g, h, hv, hnt => by
+  | op :: rest, s, vt, ph, ph', g, h, htk, hv, hnt => by
     simp only [validFrom] at hv
     split at hv
     · rename_i hok
@@ -1762,8 +1889,8 @@ theorem prun_inv (cfg : Cfg) : ∀ (ops : List Op) (s : Sys) (vt : VT) (ph ph' :
       | some ph1 =>
         simp only [hp, Option.bind_some] at hv
         simp only [noPenTrigger, Bool.and_eq_true, Bool.not_eq_true'] at hnt
-        have h1 := pstep_inv cfg s vt ph ph1 g op h hok hp hnt.1
-        have h2 := prun_inv cfg rest _ _ ph1 ph' _ h1 hv hnt.2
+        have h1 := pstep_inv cfg s vt ph ph1 g op h htk hok hp hnt.1
+        have h2 := prun_inv cfg rest _ _ ph1 ph' _ h1 (tk_step cfg s ph ph1 op htk hp) hv hnt.2
         simpa [Sys.run, ghostRun, feed_append] using h2
     · cases hv
 
@@ -1810,10 +1937,13 @@ def TriggerFree (cfg : Cfg) (toplevel : Bool) (ops : List Op) : Prop := noTrigge
 instance (cfg : Cfg) (toplevel : Bool) (ops : List Op) : Decidable (TriggerFree cfg toplevel ops) := by
   unfold TriggerFree; infer_instance
 
+theorem build_tk (toplevel : Bool) : TkInv (Sys.build toplevel).1 .running :=
+  ⟨fun _ => by simp [Sys.build, Term.build], rfl⟩
+
 theorem after_inv (cfg : Cfg) (toplevel : Bool) (m0 : VModes) (ops : List Op) (ph : Phase)
     (hm0 : m0.standard = true) (hv : validFrom .running ops = some ph) (hnt : TriggerFree cfg toplevel ops) :
     MInv cfg (sysAfter cfg toplevel ops) (vtAfter cfg toplevel m0 ops) ph (ghostAfter cfg toplevel ops) :=
-  run_inv cfg ops _ _ .running ph {} (build_inv cfg toplevel m0 hm0) hv hnt
+  run_inv cfg ops _ _ .running ph {} (build_inv cfg toplevel m0 hm0) (build_tk toplevel) hv hnt
 
 /-- With the keypad recorded and the replies guarded nothing is a trigger. -/
 theorem triggerFree_of_repaired (cfg : Cfg) (hk : cfg.keypadRecorded = true) (hr : cfg.repliesGuarded = true)
